@@ -387,6 +387,19 @@ func (fx *FnExec) specEnvAt(st *State, head *ssa.BasicBlock) *SpecEnv {
 		env.entrySt = est
 		env.entryLocals = func(name string) (specVal, bool) { return fx.localAt(est, name, pos) }
 	}
+	// range_at<N>: the index loop N (an enclosing range loop) is currently visiting
+	for h2, l2 := range fx.loops {
+		if l2 == li || len(h2.Instrs) == 0 {
+			continue
+		}
+		if ld, ok := h2.Instrs[0].(*ssa.UnOp); ok && ld.Op == token.MUL {
+			if ra, ok := ld.X.(*ssa.Alloc); ok && ra.Comment == "rangeindex" {
+				if cur, ok := st.cells[ra]; ok {
+					env.vars[fmt.Sprintf("range_at%d", l2.ordinal)] = specVal{cur, tInt}
+				}
+			}
+		}
+	}
 	// range loops over slices: at the loop head the hidden cell "rangeindex" holds
 	// the previous index; the key variable (and the pseudo variable range_i) denote
 	// the index about to be visited, i.e. the number of completed iterations
